@@ -63,7 +63,8 @@ contract('ikesa.IkeSa.process_message', params={'data': Bytes}, returns=Opt(Byte
                                           'and implies(self.new_ike_sa is not None, unchanged(self.new_ike_sa)))',
              # ... and elicits no reply other than the stored response to a retransmitted IKE_SA_INIT request
              'C03:unprotected-reply': 'implies(old(self.peer_crypto) is not None and not protected_seen '
-                                      'and result is not None, result == old(self.last_sent_response_data))',
+                                      'and result is not None, result == old(self.last_sent_response_data) '
+                                      'and old(self.peer_msg_id) == 1)',
              'C13:dpd-reset-only-authentic': 'implies(self.start_dpd_at != old(self.start_dpd_at), '
                                              'old(self.peer_crypto) is None or protected_seen)',
              # (Inv preservation is stated on _process_request / _process_response; an authenticated response
